@@ -68,6 +68,8 @@ func c07Op(r *rng, sym byte) hop {
 		return hop{op: 'M', doc: metaDocs[r.intn(len(metaDocs))]}
 	case 'i':
 		return hop{op: 'I'}
+	case 'n':
+		return hop{op: 'N'}
 	}
 	panic("sym")
 }
@@ -136,10 +138,14 @@ func init() {
 		}
 		for k := 0; k < nrand; k++ {
 			c := hcase{kind: compressingKinds[r.intn(5)], n: 1 + r.intn(5), probe: true}
+			if r.chance(1, 6) {
+				// the property speaks of any collector: the uncompressed ones take part in the long histories, too
+				c.kind = kindNames[5+r.intn(len(kindNames)-5)]
+			}
 			c.wrapper = pickWrapper(r, c.kind)
 			l := 5 + r.intn(40)
 			for i := 0; i < l; i++ {
-				sym := "aaaaaaabbburxfmig"[r.intn(17)]
+				sym := "aaaaaaabbburxfmign"[r.intn(18)]
 				if (c.kind == "dyn" || c.kind == "sdyn") && r.chance(1, 6) {
 					sym = 'd'
 				}
